@@ -391,8 +391,8 @@ Section XExec.
                 match arr_len adata with
                 | None => XLFault (Dyn DynHandle)
                 | Some 0 =>
-                    (* `continue` without advancing the program counter: the instruction runs again *)
-                    XNext 0 (xsput base x d (repeat 0%Z (nn (ar_ew adata)))) fl
+                    (* an empty array reads as the zero element *)
+                    XNext 1 (xsput base x d (repeat 0%Z (nn (ar_ew adata)))) fl
                 | Some len =>
                     let idx := if is_finite_bits iw then Z.to_N (clampZ (a_trunc A iw) 0 (Z.of_N (len - 1))) else 0 in
                     match rd_range (ar_data adata) (idx * ar_ew adata) (ar_ew adata) with
@@ -411,7 +411,7 @@ Section XExec.
             | Some adata =>
                 match arr_len adata with
                 | None => XLFault (Dyn DynHandle)
-                | Some 0 => XNext 0 x fl
+                | Some 0 => XNext 1 x fl                            (* nothing to write into an empty array *)
                 | Some len =>
                     let idx := if is_finite_bits iw then Z.to_N (clampZ (a_trunc A iw) 0 (Z.of_N (len - 1))) else 0 in
                     match xsget_range base x v (ar_ew adata) with
